@@ -841,6 +841,11 @@ class PureInterp:
     def e_Constant(self, n, env, module, depth):
         return n.value
 
+    def e_NamedExpr(self, n, env, module, depth):
+        v = self.eval(n.value, env, module, depth)
+        env[n.target.id] = v
+        return v
+
     def _module_const(self, canon, obj, name, depth):
         cache = self.__dict__.setdefault("_const_cache", {})
         if canon in cache:
